@@ -43,6 +43,11 @@ public:
         // The whole propagation algorithm is under the lock in order to ensure correctness
         // in case of concurrent state changes at the different levels of the context tree.
         threads_list_mutex_type::scoped_lock lock(my_threads_list_mutex);
+        // A context that is being bound concurrently re-reads its parent's state under
+        // the_context_state_propagation_mutex when it detects a propagation in flight (see bind_to_impl),
+        // so the propagation has to hold that mutex as well, or the re-read can complete before
+        // the parent is reached and the new context misses the state change.
+        context_state_propagation_mutex_type::scoped_lock state_lock(the_context_state_propagation_mutex);
         // TODO: consider to use double-check idiom
         if ((src.*mptr_state).load(std::memory_order_relaxed) != new_state) {
             // Another thread has concurrently changed the state. Back down.
